@@ -4,9 +4,12 @@ import Drivers.Common
 Line protocol of the `extract` model (C05/C06).
 
   new <bufferSamples> <showKeys 0|1>
-  data <v0>:<n> <reqs> <rems> <complete 0|1>
+  data <v0>:<n> <reqs> <rems> <complete 0|1> [<late>]
   rt <K0> <k> <P>            (C06: predicted extractor sample for queue clock k, start K0, prestim P)
       chunk = cells v0 .. v0+n-1 ; reqs = key:s:len:tag,... | - ; rems = key,... | -
+      late (optional, same syntax as reqs; absent = `-`): requests that the `target` callback appends to
+      `queue` when it is handed this call's batch — they become `Call.late` iff the call delivers at
+      least one epoch (`target` is not called otherwise), and are dropped if it does not.
 
 Answer to `data`: `ok <items> done=<0|1>` | `err ValueError` | `dead`, where items is `-`
 or the `;`-joined, sorted list of delivered epochs, each `k<key>t<tag>=<cells>` (`t<tag>=M` for a missed marker; or just
@@ -60,6 +63,27 @@ structure DState where
 
 def init : DState := { st := State.init 0, keys := true }
 
+def data (d : DState) (ch rq rm cp lt : String) : DState × String :=
+  match parseChunk? ch, (commaList rq).mapM parseReq?, parseNats? rm, (commaList lt).mapM parseReq? with
+  | some chunk, some reqs, some rems, some late =>
+    if cp != "0" && cp != "1" then (d, "bad-op") else
+    let op : Op Int := { chunk := chunk, reqs := reqs, rems := rems, complete := cp == "1" }
+    -- `late` does not influence the batch: run the call without it to see whether `target` is called
+    let r0 := Psi.Extract.call d.st { op with late := [] }
+    let delivers := match r0.2 with
+      | .ok batch _ => !batch.isEmpty
+      | _ => false
+    let (st', out) := if delivers && !late.isEmpty then Psi.Extract.call d.st { op with late := late } else r0
+    let s := match out with
+      | .ok batch fired =>
+        let items := sortStrings (batch.map (showEpoch d.keys))
+        let body := if items.isEmpty then "-" else ";".intercalate items
+        s!"ok {body} done={if fired then 1 else 0}"
+      | .valueError => "err ValueError"
+      | .dead => "dead"
+    ({ d with st := st' }, s)
+  | _, _, _, _ => (d, "bad-op")
+
 def step (d : DState) (ws : List String) : DState × String :=
   match ws with
   | ["new", b, k] =>
@@ -72,20 +96,8 @@ def step (d : DState) (ws : List String) : DState × String :=
     match parseNat? k0, parseNat? k, parseNat? pp with
     | some k0, some k, some pp => (d, s!"ok {(k0 : Int) + (k : Int) - (pp : Int)}")
     | _, _, _ => (d, "bad-op")
-  | ["data", ch, rq, rm, cp] =>
-    match parseChunk? ch, (commaList rq).mapM parseReq?, parseNats? rm, cp with
-    | some chunk, some reqs, some rems, c =>
-      if c != "0" && c != "1" then (d, "bad-op") else
-      let (st', out) := Psi.Extract.step d.st { chunk := chunk, reqs := reqs, rems := rems, complete := c == "1" }
-      let s := match out with
-        | .ok batch fired =>
-          let items := sortStrings (batch.map (showEpoch d.keys))
-          let body := if items.isEmpty then "-" else ";".intercalate items
-          s!"ok {body} done={if fired then 1 else 0}"
-        | .valueError => "err ValueError"
-        | .dead => "dead"
-      ({ d with st := st' }, s)
-    | _, _, _, _ => (d, "bad-op")
+  | ["data", ch, rq, rm, cp] => data d ch rq rm cp "-"
+  | ["data", ch, rq, rm, cp, lt] => data d ch rq rm cp lt
   | _ => (d, "bad-op")
 
 def main : IO Unit := run init step
